@@ -1,7 +1,8 @@
 (* Corr/C04E.v — the tie of the bridge (Model/C04EBridge.v) + pipeline model (Model/C01FElab.v) to the implementation, per
    operation history of the C04 streams.  Coq computes, from the OPERATIONS alone, the final mapping (Spec/C04LastWrite.v),
    the model state `run ops`, the design `design_of u (final . ops)`, decides whether the history is inside the hypotheses of
-   Props/C04E.v, and then compares the pipeline model's package for that design with the package the implementation
+   Props/C04E.v, and then compares the pipeline model's package for the design of the state IN DICT ORDER
+   (Model/C04EOrd.v:state_design_ord; its nets on the terminals are checked equal to design_of's) with the package the implementation
    exported after performing the history (Corr/C01F.v:chk_c01f: nets on the terminals, leaf devices, well-formedness of
    the model's package; syntactic identity as information).
    Codes: 0  inside; same nets and leaf devices; packages syntactically identical
@@ -14,7 +15,8 @@
           6  the implementation rejected the complete valid final mapping
           2  tie broken: property holds on the implementation's package, the model differs / rejects
           4  checker inconsistency: state_design u (run ops) <> design_of u (final . ops) (contradicts
-             C04E_state_design_is_final), or the model's package is not well-formed / has not the nets of the design
+             C04E_state_design_is_final), the design in dict order (Model/C04EOrd.v) is invalid or has other nets on the terminals
+             than design_of (contradicts C04E_order_free_nets), or the model's package is not well-formed / has not the nets of the design
           5  the C01E and C01F models disagree on a frag_ok design
           3  harness inconsistency (u_ok false, terminal lists, xinfo) *)
 From Coq Require Import String.
@@ -22,7 +24,7 @@ Require Import Hdl21.Base.PyInt Hdl21.Spec.PySlice Hdl21.Model.Slice Hdl21.Model
                Hdl21.Spec.Nets Hdl21.Spec.WfDesign Hdl21.Base.Package Hdl21.Base.PrimTable Hdl21.Spec.PkgWf
                Hdl21.Spec.C01ENets Hdl21.Corr.C03 Hdl21.Corr.C01 Hdl21.Model.C01EElab Hdl21.Corr.C01E
                Hdl21.Model.C01FElab Hdl21.Spec.C01FNets Hdl21.Corr.C01F
-               Hdl21.Model.C04ConnOps Hdl21.Spec.C04LastWrite Hdl21.Model.C04EBridge Hdl21.Model.C04EPipe.
+               Hdl21.Model.C04ConnOps Hdl21.Spec.C04LastWrite Hdl21.Model.C04EBridge Hdl21.Model.C04EPipe Hdl21.Model.C04EOrd.
 Open Scope Z_scope.
 
 Record c04e_case := { e_u : universe; e_xi : xinfo; e_ops : list op;
@@ -64,8 +66,16 @@ Definition chk_c04e (c : c04e_case) : Z :=
   if negb (in_fragment c) then 9 else
   let d := design_of u m in
   if negb (tops_eqb (top_of u (fun q => lookup q (st_conns (run (e_ops c))))) (top_of u m)) then 4 else
-  chk_c01f {| ce_case := {| cc_design := d; cc_terms := e_terms c; cc_pkg := e_pkg c; cc_top := e_top c; cc_pterms := e_pterms c |};
-              ce_xinfo := e_xi c |}.
+  (* the design in the order of the `conns` dicts: same nets on the terminals as the canonical one (C04E_order_free_nets) *)
+  let dord := state_design_ord u (run (e_ops c)) in
+  match spec_view d (e_terms c), spec_view dord (e_terms c) with
+  | Some a, Some b =>
+      if negb (view_eqb a b) then 4 else
+      chk_c01f {| ce_case := {| cc_design := dord; cc_terms := e_terms c; cc_pkg := e_pkg c; cc_top := e_top c; cc_pterms := e_pterms c |};
+                  ce_xinfo := e_xi c |}
+  | None, _ => 3
+  | Some _, None => 4
+  end.
 
 (* why a case is outside: 1 shape_ok, 2 closed_ok, 4 wf_design (bit mask), for the coverage report *)
 Definition c04e_why (c : c04e_case) : Z :=
@@ -74,4 +84,4 @@ Definition c04e_why (c : c04e_case) : Z :=
   (match wf_design (design_of (e_u c) m) with Ok _ => 0 | Error _ => 4 end).
 
 (* the model's result, for diagnosis *)
-Definition c04e_model_pkg (c : c04e_case) : result package := pkg_of_state (e_xi c) (e_u c) (run (e_ops c)).
+Definition c04e_model_pkg (c : c04e_case) : result package := pkg_of_state_ord (e_xi c) (e_u c) (run (e_ops c)).
